@@ -62,7 +62,22 @@ func addDec(a, b dec) dec {
 func negDec(a dec) dec { return dec{Units: new(big.Int).Neg(a.Units), Exp: a.Exp} }
 
 // eqDec is strict: same value and same number of decimals.
-func eqDec(a, b dec) bool { return a.Exp == b.Exp && a.Units.Cmp(b.Units) == 0 }
+// valueOnly: the case at hand merges summaries of different precisions; the
+// statement fixes the sums, not the number of decimals they are written with,
+// so figures are compared by value there (0 and 0.00 are the same sum).
+var valueOnly bool
+
+func eqDec(a, b dec) bool {
+	if valueOnly && a.Exp != b.Exp {
+		e := a.Exp
+		if b.Exp > e {
+			e = b.Exp
+		}
+		x, y := a.Rescale(e), b.Rescale(e)
+		return x.Units.Cmp(y.Units) == 0
+	}
+	return a.Exp == b.Exp && a.Units.Cmp(b.Units) == 0
+}
 
 // sameValue compares the rational values only.
 func sameValue(a, b dec) bool { return a.Rat().Cmp(b.Rat()) == 0 }
@@ -577,6 +592,8 @@ func isPerm(p []int, n int) bool {
 
 // judgeTotals is the oracle of the "totals" check.
 func judgeTotals(c Case, o *vh.Obs) {
+	valueOnly = false
+	defer func() { valueOnly = false }()
 	n := len(c.Ops)
 	exp, ok := curExp(c.Currency)
 	if n < 2 || n > 6 || !isPerm(c.Perm, n) || !ok {
@@ -608,11 +625,17 @@ func judgeTotals(c Case, o *vh.Obs) {
 			o.Failf("model:unreadable", "operand %d: %v", i, err)
 			return
 		}
-		if a.minE != exp || a.maxE != exp {
-			// operands of different precision are outside this check
+		if a.minE != a.maxE {
+			// an operand whose own figures differ in precision is outside this check
 			o.Discard()
-			o.Note("operand %d is not at the currency precision", i)
+			o.Note("operand %d mixes precisions", i)
 			return
+		}
+		if a.minE != exp {
+			// a summary of a document in a currency with other decimals: the sums
+			// keep the finer precision, whichever operand comes first
+			o.Class("operand-of-other-precision")
+			valueOnly = true
 		}
 		for _, ac := range a.cats {
 			if ac.n != 1 || len(ac.retainedSeen) != 1 {
@@ -1190,7 +1213,11 @@ func genCase(t *rapid.T) Case {
 	for i := 0; i < n; i++ {
 		label := fmt.Sprintf("op%d", i)
 		if rapid.IntRange(0, 2).Draw(t, label+"_free") == 0 {
-			c.Ops = append(c.Ops, Operand{Via: "free", JSON: genSummaryJSON(t, label, pal, exp, false)})
+			oe := exp
+			if rapid.IntRange(0, 3).Draw(t, label+"_other_precision") == 0 {
+				oe = rapid.SampledFrom([]int{0, 2, 3}).Draw(t, label+"_precision")
+			}
+			c.Ops = append(c.Ops, Operand{Via: "free", JSON: genSummaryJSON(t, label, pal, oe, false)})
 		} else {
 			c.Ops = append(c.Ops, genCalcOperand(t, label, pal, exp))
 		}
